@@ -106,7 +106,7 @@ PROPS = {
         "rule": WORLD_RULE, "assumptions": WORLD_ASSUMPTIONS,
     },
     "C08": {
-        "lean_modules": ["Perp.Props.Dispatch"],
+        "lean_modules": ["Perp.Props.Dispatch", "Perp.Props.WorldInv"],
         "runs": lambda tier, seed: world_runs(tier, seed) + fault_runs(tier, seed),
         "rule": WORLD_RULE, "assumptions": WORLD_ASSUMPTIONS,
     },
@@ -121,7 +121,7 @@ PROPS = {
         "rule": WORLD_RULE, "assumptions": WORLD_ASSUMPTIONS,
     },
     "C14": {
-        "lean_modules": ["Perp.Props.VammGuards", "Perp.Props.EngineGuards"],
+        "lean_modules": ["Perp.Props.VammGuards", "Perp.Props.EngineGuards", "Perp.Props.WorldInv"],
         "runs": lambda tier, seed: world_runs(tier, seed) + [vamm_run(tier, seed, 600, 10000)],
         "rule": WORLD_RULE, "assumptions": WORLD_ASSUMPTIONS,
     },
@@ -131,7 +131,7 @@ PROPS = {
         "rule": WORLD_RULE, "assumptions": WORLD_ASSUMPTIONS,
     },
     "C02": {
-        "lean_modules": ["Perp.Props.EngineMoney", "Perp.Props.Dispatch"],
+        "lean_modules": ["Perp.Props.EngineMoney", "Perp.Props.Dispatch", "Perp.Props.CurveNoFlip", "Perp.Props.WorldInv"],
         "runs": lambda tier, seed: world_runs(tier, seed),
         "rule": WORLD_RULE, "assumptions": WORLD_ASSUMPTIONS,
     },
@@ -141,12 +141,12 @@ PROPS = {
         "rule": WORLD_RULE, "assumptions": WORLD_ASSUMPTIONS,
     },
     "C05": {
-        "lean_modules": ["Perp.Props.EngineGuards", "Perp.Props.EngineMoney"],
+        "lean_modules": ["Perp.Props.EngineGuards", "Perp.Props.EngineMoney", "Perp.Props.WorldInv"],
         "runs": lambda tier, seed: world_runs(tier, seed),
         "rule": WORLD_RULE, "assumptions": WORLD_ASSUMPTIONS,
     },
     "C06": {
-        "lean_modules": ["Perp.Props.EngineMoney", "Perp.Props.EngineGuards"],
+        "lean_modules": ["Perp.Props.EngineMoney", "Perp.Props.EngineGuards", "Perp.Props.CurveNoFlip"],
         "runs": lambda tier, seed: world_runs(tier, seed, q=1200, qn=8),
         "rule": WORLD_RULE, "assumptions": WORLD_ASSUMPTIONS,
     },
@@ -156,7 +156,7 @@ PROPS = {
         "rule": WORLD_RULE, "assumptions": WORLD_ASSUMPTIONS,
     },
     "C10": {
-        "lean_modules": ["Perp.Props.EngineMoney"],
+        "lean_modules": ["Perp.Props.WorldInv", "Perp.Props.EngineMoney"],
         "runs": lambda tier, seed: world_runs(tier, seed),
         "rule": WORLD_RULE, "assumptions": WORLD_ASSUMPTIONS,
     },
@@ -166,7 +166,7 @@ PROPS = {
         "rule": WORLD_RULE, "assumptions": WORLD_ASSUMPTIONS,
     },
     "C16": {
-        "lean_modules": ["Perp.Props.EngineGuards"],
+        "lean_modules": ["Perp.Props.EngineGuards", "Perp.Props.WorldInv"],
         "runs": lambda tier, seed: world_runs(tier, seed),
         "rule": WORLD_RULE, "assumptions": WORLD_ASSUMPTIONS,
     },
